@@ -311,11 +311,8 @@ class LemmaChain:
                             break
                     if done:
                         break
-            if done:
-                if d.lt(0, e) not in self.facts:
-                    self.fact(d.lt(0, e))
-                continue
-            reps.append(e)
+            if not done:
+                reps.append(e)
             self.fact(d.lt(0, e))  # exp > 0
             if d.vals[a] > 0 and self.prove(f'exp argument positive #{e}', d.lt(0, a)):
                 self.fact(d.lt(1, e))  # x > 0 => exp x > 1
@@ -324,22 +321,37 @@ class LemmaChain:
             elif d.vals[a] < 0 and self.prove(f'exp argument negative #{e}', d.lt(a, 0)):
                 self.fact(d.lt(e, 1))
 
+    def sign(self, b, what, depth=2):
+        """sign of node b as on the witness; on failure the signs of its operands are established first"""
+        d = self.d
+        if d.ops[b] == 'const':
+            return True
+        v = d.vals[b]
+        if v != v:
+            return False
+        stmt = d.lt(0, b) if v > 0 else (d.lt(b, 0) if v < 0 else d.eq(b, 0))
+        if stmt in self.facts or stmt == d.TRUE:
+            return True
+        sfx = '> 0' if v > 0 else ('< 0' if v < 0 else '= 0')
+        if self.lemma(f'{what} #{b} {sfx}', stmt):
+            return True
+        if depth <= 0 or d.ops[b] not in ('add', 'mul', 'div', 'ipow') or self.failed[-1][1] != 'refuted':
+            return False
+        for ch in d.children(b):
+            if d.ops[ch] in ('add', 'mul', 'div', 'ipow'):
+                self.sign(ch, 'operand', depth - 1)
+        return self.lemma(f'{what} #{b} {sfx} (operand signs known)', stmt)
+
     def sign_phase(self, nodes, what='denominator'):
         """sign (as on the witness) of each node, children first."""
-        d = self.d
         ok = True
         for b in sorted(set(nodes)):
-            if d.ops[b] == 'const':
-                continue
-            v = d.vals[b]
-            stmt = d.lt(0, b) if v > 0 else d.lt(b, 0)
-            if v == 0 or not self.lemma(f'{what} #{b} {"> 0" if v > 0 else "< 0"}', stmt):
+            if not self.sign(b, what):
                 ok = False
         return ok
 
     def positive(self, g):
-        d = self.d
-        return d.lt(0, g) in self.facts or self.lemma(f'log argument #{g} positive', d.lt(0, g))
+        return self.d.vals[g] > 0 and self.sign(g, 'log argument')
 
     def log_phase(self, I, O):
         """pair log applications of implementation and oracle on the witness; prove the pairing relation"""
@@ -385,22 +397,21 @@ class LemmaChain:
                             found = True
             if not found:
                 unpaired.append(L1)
-        # three-way relations (an event in an older epoch, the boundary term, the oracle's q): g1 gb g2 = 16
+        # three-way relations (an event in an older epoch, the boundary term, the oracle's q): g1 gb g2 = 4
         for L1 in list(unpaired):
             g1 = d.args[L1][1]
             found = False
             for Lb in unpaired:
-                if Lb == L1 or found:
+                if Lb == L1:
                     continue
                 gb = d.args[Lb][1]
                 for L2 in only_o:
                     g2 = d.args[L2][1]
-                    if self.close(d.vals[g1] * d.vals[gb] * d.vals[g2], 16.0):
-                        if self.prove(f'log arguments: #{L1} * #{Lb} * #{L2} = 16', d.eq(d.mul(d.mul(g1, gb), g2), d.const(16))) \
+                    if self.close(d.vals[g1] * d.vals[gb] * d.vals[g2], 4.0):
+                        if self.prove(f'log arguments: #{L1} * #{Lb} * #{L2} = 4', d.eq(d.mul(d.mul(g1, gb), g2), d.const(4))) \
                                 and self.positive(g1) and self.positive(gb) and self.positive(g2):
-                            self.fact(d.eq(d.add(d.add(L1, Lb), L2), d.mul(d.const(2), log4)))  # log(xyz), log 16 = 2 log 4
+                            self.fact(d.eq(d.add(d.add(L1, Lb), L2), log4))  # log x + log y + log z = log(xyz)
                             found = True
-                            break
             if found:
                 unpaired.remove(L1)
         return unpaired
@@ -412,12 +423,23 @@ class LemmaChain:
         goal = d.eq(I, O)
         self.sqrt_phase([goal])
         self.exp_phase([goal])
-        self.defined = self.sign_phase(t.denominators)
+        cone = set(d.topo([goal]))  # sub-expressions the result actually depends on
+        self.defined = self.sign_phase([b for b in t.denominators if b in cone])
+        # log arguments that implementation and oracle share (up to a proved equality) first
+        oside = set(d.topo([O]))
+        for L1 in [n for n in self.uf_nodes([I], 'log') if n not in oside]:
+            g1 = d.args[L1][1]
+            for L2 in [n for n in self.uf_nodes([O], 'log')]:
+                g2 = d.args[L2][1]
+                if g1 != g2 and self.close(d.vals[g1], d.vals[g2]) and self.prove(f'log arguments agree #{L1}~#{L2}', d.eq(g1, g2)):
+                    self.fact(d.eq(g1, g2))
+                    self.fact(d.eq(L1, L2))  # congruence
+                    break
         self.undefined = []
-        for kind, x in t.domains:
-            if d.ops[x] == 'var' or any(f == d.lt(0, x) for f in self.facts):
-                continue
-            if not self.lemma(f'{"log" if kind == "pos" else "sqrt"} argument #{x} in its domain', d.lt(0, x) if kind == 'pos' else d.le(0, x)):
+        doms = [(kind, x) for kind, x in t.domains if x in cone and d.ops[x] != 'var']
+        doms.sort(key=lambda kx: (kx[1] not in oside, kx[1]))  # the oracle's (closed-form) arguments first
+        for kind, x in doms:
+            if not (d.vals[x] > 0 and self.sign(x, 'log argument' if kind == 'pos' else 'sqrt argument')):
                 self.undefined.append(x)
         self.log_phase(I, O)
         hyps = [f for f in self.facts if any(d.ops[a] == 'uf' and d.args[a][0] == 'log' for a in self.atoms([f]))]
